@@ -121,6 +121,9 @@ def encBool : Enc Bool := Json.bool
 def decBool : Dec Bool := fun j => match j with | .bool b => some b | _ => none
 def encUnit : Enc Unit := fun _ => Json.null
 def decUnit : Dec Unit := fun j => match j with | .null => some () | _ => none
+/-- module values are their dotted names -/
+def encModule : Enc String := Json.str
+def decModule : Dec String := fun j => match j with | .str s => some s | _ => none
 def encOpt {α} (e : Enc α) : Enc (Option α) := fun o => match o with | none => Json.null | some a => e a
 def decOpt {α} (d : Dec α) : Dec (Option α) := fun j => match j with | .null => some none | j => (d j).map some
 def encList {α} (e : Enc α) : Enc (List α) := fun l => Json.arr (l.toArray.map e)
